@@ -25,12 +25,12 @@ theorem argOK_ext (cfg : Cfg) (w : World α) (c : Nat) (a : α) : ArgOK cfg w c 
   ⟨rfl, fun _ _ h => by simp [Src.loc] at h, fun _ _ h => by simp [Src.loc] at h⟩
 
 /-- Basic only mentions the world through fields that `emit` does not change -/
-theorem Basic.of_trace_eq {cfg : Cfg} {w w1 w2 : World α} {c : Nat} (h : Basic cfg w w1 c)
+theorem Basic.of_trace_eq {cfg : Cfg} {w w1 w2 : World α} {c : Nat} (h : Basic cfg w w1 c) (hl0 : Ledger w) (hv0 : VecOK cfg w c)
     (hm : w2.mem = w1.mem) (hh : w2.hdr = w1.hdr) (ho : w2.owner = w1.owner) (hl : w2.live = w1.live)
     (hn : w2.next = w1.next) (ht : w2.ntmp = w1.ntmp) (hu : w2.ub = w1.ub) : Basic cfg w w2 c := by
   have hc : Ctl w1 w2 := ⟨hh, ho, hl, hn, ht, hu, fun b => by rw [hm]⟩
   have hq : Quiet w1 w2 := ⟨hm, hc⟩
-  exact h.trans (Strong.basic (Strong.of_quiet h.led hq) h.led h.vec)
+  exact Basic.trans hl0 hv0 h (Strong.basic (Strong.of_quiet h.led hq) h.led h.vec)
 
 theorem holds_of_same {w1 w2 : World α} {c : Nat} {xs : List (Val α)} (h : Holds w1 c xs) (hm : w2.mem = w1.mem) (hh : w2.hdr = w1.hdr) :
     Holds w2 c xs := by
@@ -57,7 +57,7 @@ theorem appendRangeInputLoop_sat (cfg : Cfg) (c : Nat) (strong : Bool) (orig sid
     generalize hw1 : ({ w with trace := w.trace ++ [Ev.deref sid p] } : World α) = w1
     have hm1 : w1.mem = w.mem := by subst hw1; rfl
     have hh1 : w1.hdr = w.hdr := by subst hw1; rfl
-    have hb01 : Basic cfg w w1 c := (Basic.refl hv hl).of_trace_eq hm1 hh1 (by subst hw1; rfl) (by subst hw1; rfl) (by subst hw1; rfl) (by subst hw1; rfl) (by subst hw1; rfl)
+    have hb01 : Basic cfg w w1 c := (Basic.refl hv hl).of_trace_eq hl hv hm1 hh1 (by subst hw1; rfl) (by subst hw1; rfl) (by subst hw1; rfl) (by subst hw1; rfl) (by subst hw1; rfl)
     have htr1 : iterEvs w1.trace = iterEvs w.trace ++ [.deref sid p] := by subst hw1; simp [iterEvs, Ev.isIter]
     have hN1 : (w1.hdr c).N ≤ cfg.maxSize := by rw [hh1]; exact hN
     have happ := appendElement_sat cfg c (.ext x) w1 hb01.vec hb01.led hN1 (argOK_ext cfg w1 c x) hpol
@@ -101,7 +101,7 @@ theorem appendRangeInputLoop_sat (cfg : Cfg) (c : Nat) (strong : Bool) (orig sid
             rw [hr2] at her hni2
             simp only [Res.world] at hni2
             show Basic cfg w1 w3 c ∧ _
-            refine ⟨(happ.basic hb01.led hb01.vec).trans her.basic, by rw [hni2, hni], fun ys h => ?_⟩
+            refine ⟨Basic.trans hb01.led hb01.vec (happ.basic hb01.led hb01.vec) her.basic, by rw [hni2, hni], fun ys h => ?_⟩
             exact her.holds ys (happ.holds hb01.led hb01.vec h)
     refine sat_bind hstep (fun _ w2 h2 => ?_) (fun e w2 h2 => ?_)
     · obtain ⟨hp2, htr2⟩ := h2
@@ -110,9 +110,9 @@ theorem appendRangeInputLoop_sat (cfg : Cfg) (c : Nat) (strong : Bool) (orig sid
       generalize hw3 : ({ w2 with trace := w2.trace ++ [Ev.incr sid p] } : World α) = w3
       have hm3 : w3.mem = w2.mem := by subst hw3; rfl
       have hh3 : w3.hdr = w2.hdr := by subst hw3; rfl
-      have hb13 : Basic cfg w1 w3 c := (⟨hp2.vec, hp2.led, hp2.ub, hp2.frame⟩ : Basic cfg w1 w2 c).of_trace_eq hm3 hh3
+      have hb13 : Basic cfg w1 w3 c := (⟨hp2.vec, hp2.led, hp2.ub, hp2.frame⟩ : Basic cfg w1 w2 c).of_trace_eq hb01.led hb01.vec hm3 hh3
         (by subst hw3; rfl) (by subst hw3; rfl) (by subst hw3; rfl) (by subst hw3; rfl) (by subst hw3; rfl)
-      have hb03 := hb01.trans hb13
+      have hb03 := Basic.trans hl hv hb01 hb13
       have htr3 : iterEvs w3.trace = iterEvs w.trace ++ [.deref sid p, .incr sid p] := by
         subst hw3; show iterEvs (w2.trace ++ [Ev.incr sid p]) = _
         rw [iterEvs_append, htr2, htr1]; simp [iterEvs, Ev.isIter]
@@ -120,7 +120,7 @@ theorem appendRangeInputLoop_sat (cfg : Cfg) (c : Nat) (strong : Bool) (orig sid
       have ho3 : orig ≤ (w3.hdr c).size := by rw [hh3, hp2.size, hh1]; omega
       refine Res.sat_mono (appendRangeInputLoop_sat cfg c strong orig sid hpol xs (p + 1) w3 hb03.vec hb03.led hN3 ho3) ?_ ?_
       · intro _ w' ⟨hb, hh, htr⟩
-        refine ⟨hb03.trans hb, ?_, ?_⟩
+        refine ⟨Basic.trans hl hv hb03 hb, ?_, ?_⟩
         · intro ys hy
           have h1 : Holds w1 c ys := holds_of_same hy hm1 hh1
           have h3 : Holds w3 c (ys ++ [.val x]) := holds_of_same (hp2.holds ys h1) hm3 hh3
@@ -128,7 +128,7 @@ theorem appendRangeInputLoop_sat (cfg : Cfg) (c : Nat) (strong : Bool) (orig sid
           simpa using this
         · rw [htr, htr3]; simp [streamEvs]
       · intro _ w' ⟨hb, hh⟩
-        refine ⟨hb03.trans hb, ?_⟩
+        refine ⟨Basic.trans hl hv hb03 hb, ?_⟩
         intro ys hy
         have h1 : Holds w1 c ys := holds_of_same hy hm1 hh1
         have h3 : Holds w3 c (ys ++ [.val x]) := holds_of_same (hp2.holds ys h1) hm3 hh3
@@ -142,7 +142,7 @@ theorem appendRangeInputLoop_sat (cfg : Cfg) (c : Nat) (strong : Bool) (orig sid
             rw [List.take_append_of_le_length hlen] at hhold; exact hhold
         · rw [htr, htr3]; simp [streamEvs, Nat.add_assoc, Nat.add_comm 1 k]
     · obtain ⟨hb2, htr2, hh2⟩ := h2
-      refine ⟨hb01.trans hb2, ?_⟩
+      refine ⟨Basic.trans hl hv hb01 hb2, ?_⟩
       intro ys hy
       have h1 : Holds w1 c ys := holds_of_same hy hm1 hh1
       refine ⟨0, by simp, ?_, ?_⟩
